@@ -16,6 +16,7 @@ RULE = ("(a) the reference-graph check of _resolve_use on random trees of nested
 TRUSTED = ["model/Termination.v (reference graph check, pass structure, href chains), model/Clips.v (fuelled clip recursion)", "tools/c17_worker.py watchdog worker", "tools/pico.py"]
 ASSUMES = ["wall-clock and memory behaviour of the interpreter and lxml are observed, not modelled (partial)",
            "the theorems bound the NUMBER of passes / recursion steps; the cost of a pass is measured by the judge"]
+MARKER = 'TOP-SECRET-C17-MARKER'
 WORKER = os.path.join(os.path.dirname(os.path.dirname(__file__)), 'c17_worker.py')
 SVGNS = 'http://www.w3.org/2000/svg'
 XL = 'http://www.w3.org/1999/xlink'
@@ -26,15 +27,22 @@ def run_worker(cases, limit=20.0, max_hangs=2):
     out, i = [], 0
     while i < len(cases):
         env = dict(os.environ, PYTHONPATH='/repo/src', PYTHONHASHSEED='0')
+        # the worker's own alarm cannot interrupt a C call (parser, Skia): the parent kills it after a grace period;
+        # results are streamed one per line, so the case being processed when it died is known
+        chunk = cases[i:]
+        budget = limit * 2 + 5 * len(chunk) + 30
         try:
-            p = subprocess.run(['/venv/bin/python', WORKER, str(limit)], input=_json.dumps(cases[i:]).encode(), capture_output=True, env=env, timeout=limit * 3 + 60 * 5)
-            res = _json.loads(p.stdout.decode()) if p.returncode == 0 and p.stdout else []
-        except subprocess.TimeoutExpired:
-            res = []
-        if not res:
-            out.append(['hang', 'worker died or did not answer', limit, '']); i += 1
-        else:
-            out += res; i += len(res)
+            p = subprocess.run(['/venv/bin/python', WORKER, str(limit), MARKER], input=_json.dumps(chunk).encode(), capture_output=True, env=env, timeout=budget)
+            stdout, died = p.stdout.decode(), p.returncode != 0
+        except subprocess.TimeoutExpired as e:
+            stdout, died = (e.stdout or b'').decode(), True
+        res = []
+        for line in stdout.splitlines():
+            try: res.append(_json.loads(line))
+            except Exception: break
+        out += res; i += len(res)
+        if len(res) < len(chunk) and (died or not res) and not (res and res[-1][0] in ('hang', 'memory')):
+            out.append(['hang', 'the worker had to be killed while processing this document (not interruptible by its own alarm)', budget, '']); i += 1
         if sum(1 for r in out if r[0] in ('hang', 'memory')) >= max_hangs:
             out += [['skipped', 'too many hangs in this chunk', 0, '']] * (len(cases) - len(out))
             break
@@ -100,6 +108,9 @@ def corr(ctx):
         else:
             mode, tbl = gen_chain(rng)
             cases.append(['gradient', chain_xml(tbl)]); meta.append(('follow', mode, tbl))
+    import docgen
+    for i in range(ctx.n(60, 600)):
+        cases.append(['tidy', docgen.group_soup(rng) if i % 2 else docgen.random_doc(rng, unsupported=0.03)]); meta.append(('tidy', 'loop', None))
     res = []
     with ThreadPoolExecutor(max_workers=8) as ex:
         chunks = [cases[k:k + 60] for k in range(0, len(cases), 60)]
@@ -108,7 +119,16 @@ def corr(ctx):
         if r[0] == 'skipped': continue
         stats['evaluations'] += 1
         stats['distribution'][f'{name}:{mode}'] = stats['distribution'].get(f'{name}:{mode}', 0) + 1
-        if name == 'use_check':
+        if name == 'tidy':
+            log = _json.loads(r[1]) if r[0] == 'ok' else None
+            mod = 'each reported removal shrinks the group count; the loop stops at the first pass without removal'
+            if log is None: same, impl = False, r[:3]
+            else:
+                impl = log
+                same = all((not rem) or after < before for before, after, rem in log) and all(rem for _, _, rem in log[:-1]) and (not log or not log[-1][2]) \
+                       and len(log) <= (log[0][0] + 1 if log else 1)
+            nt = bool(log and len(log) > 1)
+        elif name == 'use_check':
             mod = m.call('use_check', arg)
             if r[0] == 'ok': impl = True if r[1] == 'uses_left=0' else 'uses left'
             elif r[0] == 'raise' and 'Circular use' in r[1]: impl = False
@@ -157,10 +177,9 @@ def expanded_size(doc):
     s = size(root)
     return 50 if s is None else s
 
-MARKER = 'TOP-SECRET-C17-MARKER'
 def adversarial(rng, secret_path):
     G = lambda i, h='': f'<linearGradient id="{i}"{h}><stop offset="0" stop-color="red"/></linearGradient>'
-    k = rng.randrange(16)
+    k = rng.randrange(18)
     L = rng.randint(1, 4)
     ids = [f'n{j}' for j in range(L)]
     if k == 0:   # use cycle of length L
@@ -210,6 +229,11 @@ def adversarial(rng, secret_path):
         return HEAD + f'<defs>{body}</defs><rect width="9" height="9" fill="url(#n0)" transform="rotate(10)"/><rect width="3" height="3" fill="url(#n{L - 1})"/></svg>'
     if k == 14:  # nested svg referring outward / use of nested svg
         return HEAD + '<svg id="s" x="1" y="1" width="5" height="5" viewBox="0 0 10 10"><use xlink:href="#s"/></svg></svg>'
+    if k == 15:  # unsupported content nested inside a group that survives (0 < opacity < 1, several children)
+        bad = rng.choice(['<text x="1" y="5">t</text>', '<image width="3" height="3"/>', '<foreignObject width="2" height="2"/>', '<a><rect width="1" height="1"/></a>', '<filter id="f"/>'])
+        return HEAD + f'<g opacity="0.5"><rect width="5" height="5" fill="red"/><rect x="3" width="5" height="5" fill="blue"/>{bad}</g></svg>'
+    if k == 16:  # external entity inside content that survives with allow_text
+        return '@TEXT@' + f'<!DOCTYPE svg [<!ENTITY x SYSTEM "file://{secret_path}">]>' + HEAD + '<text x="1" y="5">&x;</text><rect width="9" height="9"/></svg>'
     # unsupported + symbol + use of symbol
     return HEAD + '<symbol id="sym"><rect width="2" height="2"/><use xlink:href="#sym"/></symbol><use xlink:href="#sym"/></svg>'
 
@@ -222,7 +246,7 @@ def judge_result(doc, r):
     if r[2] > bound:
         return ('time proportional to the size of the expanded document', {'bound_s': round(bound, 2), 'expanded_elements': expanded_size(doc)}, {'seconds': r[2], 'status': r[0]})
     if r[0] == 'ok':
-        v = pico.check_pico(r[3], 3)
+        v = pico.check_pico(r[3], 3, doc.startswith('@TEXT@'))
         if v: return ('a normal return satisfies the picosvg grammar', 'no violations', {'violations': v[:5], 'output': r[3][:1500]})
     return None
 
@@ -241,7 +265,7 @@ def search(ctx, broken, disagreements):
     with ThreadPoolExecutor(max_workers=8) as ex:
         chunks = [docs[k:k + 40] for k in range(0, len(docs), 40)]
         res = []
-        for r in ex.map(lambda c: run_worker([['convert', d] for d in c], 20.0), chunks): res += r
+        for r in ex.map(lambda c: run_worker([['convert_text', d[6:]] if d.startswith('@TEXT@') else ['convert', d] for d in c], 20.0), chunks): res += r
     for doc, r in zip(docs, res):
         if r[0] == 'skipped': continue
         key = r[0] + (':' + r[1].split(':')[0] if r[0] == 'raise' else '')
@@ -256,6 +280,6 @@ def matches_known(v, entry):
 
 def replay(ctx, w):
     doc = w['doc'].replace('@SECRET@', secret_file())
-    r = run_worker([['convert', doc]], 20.0)[0]
+    r = run_worker([['convert_text', doc[6:]] if doc.startswith('@TEXT@') else ['convert', doc]], 20.0)[0]
     v = judge_result(doc, r)
     return {'fails': v is not None, 'detail': jsonable(v)}
